@@ -92,3 +92,8 @@ def generate(ctx):
         ctx.check("normalise", {"rel": rel})
         ctx.corr("normalise", P.op_normalise(rel))
         ctx.sample({"rel": rel})
+    # exhaustive small scope: every list of <= 3 (quick) / <= 4 (thorough) messages over a 10-symbol alphabet
+    for rel in G.enum_rel(4 if ctx.thorough else 3):
+        ctx.count("small-scope")
+        ctx.check("normalise", {"rel": rel})
+        ctx.corr("normalise", P.op_normalise(rel))
